@@ -45,6 +45,11 @@ pub struct Contender {
     pub hold_steps: u32,
     /// true = crash while holding (guard leaked, pid dead); false = orderly release
     pub crash: bool,
+    /// true = this contender is a client: it runs rip-cli's attach / recovery loop (compiled from
+    /// the repository's own source file), which cleans up stale files and spawns an authority but
+    /// never takes the role itself
+    #[serde(default)]
+    pub client: bool,
 }
 
 #[derive(Clone, Debug, Serialize, Deserialize, PartialEq)]
@@ -69,8 +74,15 @@ pub fn generate(run_seed: u64, tier: Tier) -> Scenario {
             write_meta: rng.chance(3, 4),
             hold_steps: rng.below(6) as u32,
             crash: rng.chance(1, 2),
+            client: false,
         })
         .collect();
+    let mut contenders: Vec<Contender> = contenders;
+    // up to one client contender, never the only contender
+    if contenders.len() >= 2 && rng.chance(1, 4) {
+        let k = rng.usize_below(contenders.len());
+        contenders[k].client = true;
+    }
     let initial = match rng.below(13) {
         12 => Initial::LiveForeignLayout,
         0..=2 => Initial::Nothing,
@@ -136,6 +148,12 @@ pub fn execute(sc: &Scenario, env: &Env) -> (Outcome, RunStats) {
     seam::pid_set_alive(EXTERNAL_LIVE_PID, true);
     seam::pid_set_alive(EXTERNAL_DEAD_PID, false);
     let ws_s = ws.to_string_lossy().to_string();
+    // the client loop takes its store and workspace from the environment, as the CLI does
+    std::env::set_var("RIP_DATA_DIR", &data);
+    std::env::set_var("RIP_WORKSPACE_ROOT", &ws);
+    if sc.contenders.iter().any(|c| c.client) {
+        stats.bump("client_contenders", 1);
+    }
     let lock_json = |pid: i32| format!("{}\n", json!({"pid": pid, "started_at_ms": 1_799_999_000_000u64, "workspace_root": ws_s}));
     let meta_json = |pid: i32| format!("{}", json!({"endpoint": "not-a-url", "pid": pid, "started_at_ms": 1_799_999_000_000u64, "workspace_root": ws_s}));
     let shared = Arc::new(Mutex::new(Shared::default()));
@@ -205,6 +223,14 @@ pub fn execute(sc: &Scenario, env: &Env) -> (Outcome, RunStats) {
                 Ok(r) => r,
                 Err(_) => return,
             };
+            if c.client {
+                let r = rt.block_on(crate::cli_local_authority::ensure_local_authority());
+                let mut g = sh.lock().unwrap();
+                g.log.push(format!("client pid {pid} ended: {}", match r { Ok(e) => format!("attached to {e}"), Err(e) => e.to_string().chars().take(50).collect::<String>() }));
+                drop(g);
+                seam::set_fake_pid(0);
+                return;
+            }
             let res = rt.block_on(ripd::verif_api::acquire_authority_lock_with_recovery(&data, &ws));
             match res {
                 Ok(guard) => {
@@ -364,6 +390,13 @@ pub fn execute(sc: &Scenario, env: &Env) -> (Outcome, RunStats) {
     }
     let fin = |o: Outcome, mut stats: RunStats| {
         stats.sim_time_ns = storesim::end_run();
+        std::env::remove_var("RIP_DATA_DIR");
+        std::env::remove_var("RIP_WORKSPACE_ROOT");
+        // reap the no-op authority processes the client loop spawned
+        unsafe {
+            let mut status = 0;
+            while libc::waitpid(-1, &mut status, libc::WNOHANG) > 0 {}
+        }
         (o, stats)
     };
     if let Some(p) = storesim::harness_problem(&rep) {
@@ -487,17 +520,17 @@ impl Check for C18 {
         scenario.clone()
     }
     fn rule(&self) -> String {
-        "one evaluation = 2-5 contenders (distinct simulated pids) starting at staggered points from one of nine leftover states (lock and meta of a live authority in a record layout this build cannot parse, no files, lock of a dead pid, lock+meta of a dead pid, half-written lock, empty lock, lock of a live pid with/without meta, meta of a dead pid only, dead meta next to a live lock), each running the real acquire_authority_lock_with_recovery; a contender that gets the role optionally writes meta, holds for 0-5 steps, then crashes (liveness flip, guard leaked) or releases; clock quantum 1-4 ms per read with optional jumps of 0.5-5 s; invariants at every scheduling point: at most one live holder, no rename/unlink of lock.json or meta.json that belongs to a live, unreleased pid by another pid; afterwards a fresh contender must acquire (or, with an external live authority, must be refused); distinct = hash of the (actor, point-class) trace; non-trivial = at least 2 context switches".into()
+        "one evaluation = 2-5 contenders (distinct simulated pids) starting at staggered points from one of nine leftover states (lock and meta of a live authority in a record layout this build cannot parse, no files, lock of a dead pid, lock+meta of a dead pid, half-written lock, empty lock, lock of a live pid with/without meta, meta of a dead pid only, dead meta next to a live lock), each running the real acquire_authority_lock_with_recovery (1 in 4 scenarios: one contender is a client running rip-cli's attach / recovery loop instead — it cleans up and spawns, never holds); a contender that gets the role optionally writes meta, holds for 0-5 steps, then crashes (liveness flip, guard leaked) or releases; clock quantum 1-4 ms per read with optional jumps of 0.5-5 s; invariants at every scheduling point: at most one live holder, no rename/unlink of lock.json or meta.json that belongs to a live, unreleased pid by another pid; afterwards a fresh contender must acquire (or, with an external live authority, must be refused); distinct = hash of the (actor, point-class) trace; non-trivial = at least 2 context switches".into()
     }
     fn assumptions(&self) -> Vec<String> {
         vec![
             "no live contender stalls longer than the 1 s corrupt-lock grace period between two of its own file-system steps (scheduler fairness bound of 40 steps); a longer stall is outside the protocol's own assumption".into(),
             "advertised endpoints never answer (the only case in which cleanup may proceed, and what a stalled authority looks like)".into(),
-            "only the server-side recovery loop runs; the rip-cli client loop lives in a binary crate and is not covered".into(),
+            "client contenders (1 in 4 scenarios) run the attach loop of rip-cli/src/local_authority.rs compiled into the simulator from the repository file; the authority process it spawns is a no-op (server contenders are separate actors)".into(),
         ]
     }
     fn components(&self) -> Value {
-        json!({"AuthorityLockGuard, stale/corrupt cleanup, server acquire_authority_lock_with_recovery": "real", "processes": "simulated (actor threads + getpid/kill seam + liveness table)", "clock": "simulated", "file system": "real tmpfs authority/ directory via libc seam", "endpoint ping": "real reqwest call on an unparseable URL (never reachable)", "rip-cli client recovery loop": "not covered"})
+        json!({"AuthorityLockGuard, stale/corrupt cleanup, server acquire_authority_lock_with_recovery": "real", "processes": "simulated (actor threads + getpid/kill seam + liveness table)", "clock": "simulated", "file system": "real tmpfs authority/ directory via libc seam", "endpoint ping": "real reqwest call on an unparseable URL (never reachable)", "rip-cli client attach/recovery loop": "real (source file included by path; the process it spawns is a no-op)"})
     }
     fn extra_coverage(&self, c: &BTreeMap<String, u64>) -> Value {
         let init: BTreeMap<&String, &u64> = c.iter().filter(|(k, _)| k.starts_with("initial:")).collect();
